@@ -30,7 +30,7 @@ STD_SAMPLE = "strings"
 
 
 def config_defs(rng):
-    seed = base64.b64encode(rng.randbytes(8)).decode().rstrip("=")
+    seed = base64.b64encode(rng.randbytes(12)).decode().rstrip("=")     # longer than the 8 bytes the literal PRNG uses
     return {
         "default": dict(gflags=[], env={}, goflags=[], tag=False, roles={"main": "main", "lib": "lib", "excl": "lib"}),
         "seed": dict(gflags=["-seed=" + seed], env={}, goflags=[], tag=False, roles={"main": "main", "lib": "lib", "excl": "lib"}),
